@@ -1,64 +1,43 @@
-(* C06 — file arithmetic and mask() follow masked-array semantics.
+(* C06 — file arithmetic and mask() follow masked-array semantics (code after the fixes
+   C06-pncbo-keep-masks, C06-mask-dims-list, C06-mask-int-values).
    Property statements only.  Model: Model/Arith.v (elementwise over the row-major cells, hence
-   all shapes; the scalar results r / numpy.ma fillers z are inputs supplied by numpy, the model
-   decides mask placement and which value is exposed).  eval() is NOT modelled in Coq (it is
-   compared with direct numpy evaluation by the Python oracle of the correspondence). *)
+   all shapes; the scalar results r are inputs supplied by numpy, the model decides mask
+   placement).  eval() is NOT modelled in Coq (it is compared with direct numpy evaluation by
+   the Python oracle of the correspondence). *)
 From PNC Require Import Base.Util Model.Arith Proofs.ArithProofs.
 Require Import QArith.
 Local Close Scope Q_scope.
 Local Open Scope nat_scope.
 
-(* (1) PARTIAL: on the domain where no operand cell is masked and, for masked-typed operands, no
-   domained operator (div, floordiv, mod, pow) meets a zero divisor or a non-finite result, every variable of
-   `f1 op f2` is exactly what the property demands (all operators, all shapes, any number of
-   variables, coordinate variables and variables missing on the right included). *)
-Theorem C06_binop_partial : forall cls coords vs,
-  forallb (dom_var cls coords) vs = true -> impl_binop cls coords vs = spec_binop cls coords vs.
-Proof. exact binop_dom_correct. Qed.
-Print Assumptions C06_binop_partial.
+(* (1) FULL: every variable of `f1 op f2` is exactly what the property demands: operand masks
+   united, non-finite results (and, for masked-typed operands, zero divisors) masked, otherwise
+   the elementwise result; coordinate variables and variables missing on the right copied from
+   the left.  All operators, all shapes, any number of variables, masked or plain operands,
+   zero / inf / nan included.  wf_var only says that plain variables carry no masked cell. *)
+Theorem C06_binop_correct : forall cls coords vs,
+  forallb wf_var vs = true -> impl_binop cls coords vs = spec_binop cls coords vs.
+Proof. exact binop_correct. Qed.
+Print Assumptions C06_binop_correct.
 
-(* (1a) in particular: plain (not masked-typed) operands, every operator, zero / inf / nan included *)
-Theorem C06_binop_plain_operands : forall cls coords vs,
-  (forall v cs, In v vs -> bpair v = Some cs ->
-     bma v = false /\ forall c, In c cs -> m1 c = false /\ m2 c = false) ->
-  impl_binop cls coords vs = spec_binop cls coords vs.
-Proof. exact binop_plain_correct. Qed.
-Print Assumptions C06_binop_plain_operands.
+(* (2) a masked operand cell of a masked-typed variable stays masked, whatever the operator *)
+Theorem C06_masked_operand_stays_masked : forall cls c,
+  m1 c || m2 c = true -> impl_cell true cls c = None.
+Proof. exact masked_operand_stays_masked. Qed.
+Print Assumptions C06_masked_operand_stays_masked.
 
-(* (1b) masked-typed operands without masked cells *)
-Theorem C06_binop_unmasked_ma_operands : forall cls coords vs,
-  (forall v cs, In v vs -> bpair v = Some cs -> forall c, In c cs ->
-     m1 c = false /\ m2 c = false /\ (cls = 0 \/ (b0 c = false /\ nonfin (r c) = false))) ->
-  impl_binop cls coords vs = spec_binop cls coords vs.
-Proof. exact binop_ma_correct. Qed.
-Print Assumptions C06_binop_unmasked_ma_operands.
-
-(* (2) The FULL statement is false of the faithful model: a masked operand cell comes back
-   unmasked (value = the numpy.ma filler), and 1/0 on a masked-typed variable is not masked. *)
-Theorem C06_binop_masked_operand_refuted : exists cls coords vs,
-  impl_binop cls coords vs <> spec_binop cls coords vs /\
-  impl_binop cls coords vs = [[Some (Fin (2 # 1)); Some (Fin (5 # 1))]].
-Proof.
-  exists 0, [], [BV 10 true [None; Some (Fin (3#1))]
-                   (Some [BC true false false (Fin (4#1)) (Fin (2#1)); BC false false false (Fin (5#1)) (Fin (5#1))])].
-  vm_compute. split; [discriminate | reflexivity].
-Qed.
-Print Assumptions C06_binop_masked_operand_refuted.
-
-Theorem C06_binop_zero_division_refuted : exists coords vs,
-  impl_binop 1 coords vs = [[Some (Fin (1 # 1))]] /\ spec_binop 1 coords vs = [[None]].
-Proof.
-  exists [], [BV 10 true [Some (Fin (1#1))] (Some [BC false false true PInf (Fin (1#1))])].
-  vm_compute. split; reflexivity.
-Qed.
-Print Assumptions C06_binop_zero_division_refuted.
-
-(* (3) Coordinate variables are passed through from the left operand unchanged, in place. *)
+(* (3) Coordinate variables are passed through from the left operand unchanged, in place; so are
+   variables absent from the right file. *)
 Theorem C06_coords_passthrough : forall cls coords vs i v,
   nth_error vs i = Some v -> is_coord coords v = true ->
   nth_error (impl_binop cls coords vs) i = Some (bleft v).
 Proof. exact coords_passthrough. Qed.
 Print Assumptions C06_coords_passthrough.
+
+Theorem C06_missing_right_copied : forall cls coords vs i v,
+  nth_error vs i = Some v -> bpair v = None ->
+  nth_error (impl_binop cls coords vs) i = Some (bleft v).
+Proof. exact missing_right_copied. Qed.
+Print Assumptions C06_missing_right_copied.
 
 (* (4) For every input whatsoever an exposed value is finite (masked_invalid is always applied). *)
 Theorem C06_never_exposes_nonfinite : forall is_ma cls c x,
@@ -73,77 +52,70 @@ Theorem C06_spec_cell_exact : forall is_ma cls c x,
 Proof. exact spec_cell_exact. Qed.
 Print Assumptions C06_spec_cell_exact.
 
-(* (6) mask(): on the domain dom_values (floating variable, or integral / absent values=) an
-   output cell is masked exactly when it was masked, or the where-bit is set, or a predicate
-   holds (all predicate combinations, any length), the stored value untouched ... *)
-Theorem C06_mask_exact_no_where_partial : forall p f cs,
-  dom_values p f = true ->
+(* (6) mask(): an output cell is masked exactly when it was masked, or the where-bit is set, or a
+   predicate holds (all predicate combinations, integer and floating variables, any length),
+   the stored value untouched ... *)
+Theorem C06_mask_exact_no_where : forall p f cs,
   zip_mask (impl_mcell p f) None cs = map (fun c => MC (raw c) (msk c || false || pred_hit p f (raw c))) cs.
 Proof. exact mask_exact_no_where. Qed.
-Print Assumptions C06_mask_exact_no_where_partial.
+Print Assumptions C06_mask_exact_no_where.
 
-Theorem C06_mask_exact_where_partial : forall p f bs cs,
-  dom_values p f = true -> length bs = length cs ->
+Theorem C06_mask_exact_where : forall p f bs cs,
+  length bs = length cs ->
   zip_mask (impl_mcell p f) (Some bs) cs
   = map (fun bc => MC (raw (snd bc)) (msk (snd bc) || fst bc || pred_hit p f (raw (snd bc)))) (combine bs cs).
 Proof. exact mask_exact_where. Qed.
-Print Assumptions C06_mask_exact_where_partial.
+Print Assumptions C06_mask_exact_where.
 
-(* ... and every cell left unmasked shows its input value unaltered, was unmasked before, and
-   satisfies no predicate *)
-Theorem C06_mask_keeps_unmasked_partial : forall p f bits cs,
-  dom_values p f = true ->
+(* ... every cell left unmasked shows its input value unaltered, was unmasked before, and satisfies
+   no predicate; masks only grow *)
+Theorem C06_mask_keeps_unmasked : forall p f bits cs,
   Forall2 (fun c c' => forall x, visible c' = Some x ->
               visible c = Some x /\ pred_hit p f (raw c) = false)
           cs (zip_mask (impl_mcell p f) bits cs).
 Proof. exact mask_keeps_unmasked. Qed.
-Print Assumptions C06_mask_keeps_unmasked_partial.
+Print Assumptions C06_mask_keeps_unmasked.
 
-(* (7) PARTIAL: mask() as a whole (coordinate variables skipped, the where/dims applicability
-   rule, IndexError on a mis-shaped where) equals the specification unless dims= is a list or an
-   integer variable meets a non-integral values= *)
-Theorem C06_mask_partial : forall coords wc w p vs,
-  dims_is_list w = false -> existsb (int_values_var coords wc p) vs = false ->
+Theorem C06_mask_monotone : forall p f bits cs,
+  Forall2 (fun c c' => msk c = true -> msk c' = true) cs (zip_mask (impl_mcell p f) bits cs).
+Proof. exact mask_monotone. Qed.
+Print Assumptions C06_mask_monotone.
+
+(* (7) FULL: mask() as a whole (coordinate variables skipped unless coords=True, the where/dims
+   applicability rule for any iterable dims, IndexError on a mis-shaped where) equals the
+   specification for every input *)
+Theorem C06_mask_correct : forall coords wc w p vs,
   impl_mask coords wc w p vs = spec_mask coords wc w p vs.
 Proof. exact mask_correct. Qed.
-Print Assumptions C06_mask_partial.
+Print Assumptions C06_mask_correct.
 
-Theorem C06_mask_skips_coords : forall cellf applies coords w p v,
-  existsb (Nat.eqb (mname v)) coords = true -> mask_var cellf applies coords false w p v = Some (mcells v).
+Theorem C06_mask_skips_coords : forall cellf coords w p v,
+  existsb (Nat.eqb (mname v)) coords = true -> mask_var cellf coords false w p v = Some (mcells v).
 Proof. exact mask_skips_coords. Qed.
 Print Assumptions C06_mask_skips_coords.
 
-(* (8) with dims given as a LIST (the docstring says "iterable of strings") `where` is silently
-   not applied: list == tuple is False *)
-Definition no_preds := Preds None None None None None None false.
-Theorem C06_mask_dims_list_refuted : exists coords w p vs,
-  impl_mask coords false w p vs = MOk [[Some (Fin (1#1)); Some (Fin (2#1))]]
-  /\ spec_mask coords false w p vs = MOk [[None; Some (Fin (2#1))]].
-Proof.
-  exists [], (Some (WA [2] [true; false] (Some ([3], false)))), no_preds,
-         [MV 10 true [3] [2] [MC (Fin (1#1)) false; MC (Fin (2#1)) false]].
-  vm_compute. split; reflexivity.
-Qed.
-Print Assumptions C06_mask_dims_list_refuted.
+(* Regressions of the repaired defects (they used to be _refuted witnesses) and non-vacuity of (1):
+   a masked operand cell, 1/0 and 5//0 on masked-typed variables, a plain pair producing inf, a
+   coordinate variable *)
+Example C06_binop_inhabited :
+  let vs := [BV 10 true [None; Some (Fin (3#1))]
+                (Some [BC true false false (Fin (4#1)); BC false false false (Fin (5#1))]);
+             BV 11 true [Some (Fin (1#1)); Some (Fin (5#1))]
+                (Some [BC false false true PInf; BC false false true (Fin (0#1))]);
+             BV 12 false [Some (Fin (1#1)); Some (Fin (2#1))]
+                (Some [BC false false true PInf; BC false false false (Fin (1#2))]);
+             BV 0 false [Some (Fin (7#1))] (Some [BC false false false (Fin (9#1))])] in
+  forallb wf_var vs = true
+  /\ impl_binop 1 [0] vs = [[None; Some (Fin (5#1))]; [None; None]; [None; Some (Fin (1#2))]; [Some (Fin (7#1))]].
+Proof. vm_compute. split; reflexivity. Qed.
 
-(* (9) integer variable, values=1/4 (non-integral): a cell that was already masked (7) and one
-   masked by greater=2 (5) come back UNMASKED holding 0 = int(0.25) *)
-Theorem C06_mask_int_values_refuted : exists coords p vs,
-  impl_mask coords false None p vs = MOk [[Some (Fin (0#1)); Some (Fin (1#1)); Some (Fin (0#1))]]
-  /\ spec_mask coords false None p vs = MOk [[None; Some (Fin (1#1)); None]].
-Proof.
-  exists [], (Preds (Some (2#1)%Q) None None None (Some (1#4)%Q) None false),
-         [MV 10 false [3] [3] [MC (Fin (7#1)) true; MC (Fin (1#1)) false; MC (Fin (5#1)) false]].
-  vm_compute. split; reflexivity.
-Qed.
-Print Assumptions C06_mask_int_values_refuted.
-
-(* Non-vacuity of (1): a masked-typed pair with 1/4, a plain pair producing inf, a coordinate *)
-Example C06_hyp_inhabited :
-  let vs := [BV 10 false [Some (Fin (1#1)); Some (Fin (2#1))]
-                (Some [BC false false true PInf NaN; BC false false false (Fin (1#2)) NaN]);
-             BV 0 false [Some (Fin (7#1))] (Some [BC false false false (Fin (9#1)) NaN]);
-             BV 11 true [Some (Fin (1#1))] (Some [BC false false false (Fin (1#4)) (Fin (1#4))])] in
-  forallb (dom_var 1 [0]) vs = true
-  /\ impl_binop 1 [0] vs = [[None; Some (Fin (1#2))]; [Some (Fin (7#1))]; [Some (Fin (1#4))]].
+(* mask(where=[T,F], dims=<any iterable> ['x']) masks the first cell; an integer variable with
+   greater=2, values=1/4 keeps its masked cell masked and masks 5 *)
+Example C06_mask_inhabited :
+  impl_mask [] false (Some (WA [2] [true; false] (Some [3]))) (Preds None None None None None None false)
+            [MV 10 true [3] [2] [MC (Fin (1#1)) false; MC (Fin (2#1)) false]]
+  = MOk [[None; Some (Fin (2#1))]]
+  /\ impl_mask [] false None (Preds (Some (2#1)%Q) None None None (Some (1#4)%Q) None false)
+            [MV 10 false [3] [3] [MC (Fin (7#1)) true; MC (Fin (1#1)) false; MC (Fin (5#1)) false]]
+  = MOk [[None; Some (Fin (1#1)); None]].
 Proof. vm_compute. split; reflexivity. Qed.
